@@ -12,6 +12,9 @@ import (
 	"bytes"
 	"context"
 	"fmt"
+	"os"
+	"path/filepath"
+	"strconv"
 	"testing"
 
 	"github.com/celestiaorg/rsmt2d"
@@ -121,4 +124,187 @@ func TestVerifC14Full(t *testing.T) {
 		n++
 	}
 	r.Set("store_prune_scenarios", n)
+	c14Partial(t, r)
+}
+
+// c14Partial: Prune must be repeatable. RemoveODSQ4 takes a block away in steps (recent-cache entry, heights/<h>.ods link,
+// blocks/<hash>.ods, blocks/<hash>.q4); the pruner service writes its checkpoint only after a batch (a crash replays the batch after
+// the restart), retries failed heights and forgets a height for good on a nil verdict. So for every state a crash / a failed step /
+// an interrupted put can leave on disk, the next Prune of that header has to remove whatever is left (pruned mode: nothing of the
+// block stays; archival mode: no parity quadrant stays, a complete ODS + link stays servable) or say that it could not.
+func c14Partial(t *testing.T, r *zv.Run) {
+	ctx := context.Background()
+	rng := r.Rand()
+	type state struct {
+		name                string
+		q4put               bool // stored with PutODSQ4 (else PutODS: an out-of-window block of an archival node)
+		rmLink, rmODS, rmQ4 bool // what is already gone when Prune is called
+		faultQ4             bool // the Q4 removal fails once (the path is a non-empty directory), then heals
+	}
+	states := []state{
+		{name: "complete", q4put: true},
+		{name: "complete-ods-only"},
+		{name: "link-removed", q4put: true, rmLink: true},                         // crash after the link removal / put died before linkHeight
+		{name: "link-removed-ods-only", rmLink: true},                             // PutODS died before linkHeight
+		{name: "link-ods-removed", q4put: true, rmLink: true, rmODS: true},        // crash between removeODS and removeQ4
+		{name: "q4-removed", q4put: true, rmQ4: true},                             // archival prune done, then converted to pruned
+		{name: "link-q4-removed", q4put: true, rmLink: true, rmQ4: true},          // archival prune, then a pruned Prune died after the link
+		{name: "all-removed", q4put: true, rmLink: true, rmODS: true, rmQ4: true}, // the whole Prune replayed
+		{name: "q4-removal-fails-once", q4put: true, faultQ4: true},
+		{name: "link-removed-q4-removal-fails-once", q4put: true, rmLink: true, faultQ4: true},
+	}
+	lexists := func(p string) bool { _, err := os.Lstat(p); return err == nil }
+	height := uint64(1000)
+	n := 0
+	for rep := 0; rep < r.N(1, 6); rep++ {
+		for _, sc := range states {
+			for _, archival := range []bool{false, true} {
+				for _, restart := range []bool{true, false} {
+					size := zv.Pick(rng, []int{1, 2, 4})
+					dir := t.TempDir()
+					st, err := store.NewStore(store.DefaultParameters(), dir)
+					if err != nil {
+						t.Fatal(err)
+					}
+					sq := edstest.RandEDS(t, size)
+					roots, err := share.NewAxisRoots(sq)
+					if err != nil {
+						t.Fatal(err)
+					}
+					height++
+					eh := headertest.RandExtendedHeaderWithRoot(t, roots)
+					eh.RawHeader.Height = int64(height)
+					if sc.q4put {
+						err = st.PutODSQ4(ctx, roots, height, sq)
+					} else {
+						err = st.PutODS(ctx, roots, height, sq)
+					}
+					if err != nil {
+						t.Fatal(err)
+					}
+					hash := share.DataHash(roots.Hash()).String()
+					pODS := filepath.Join(dir, "blocks", hash+".ods")
+					pQ4 := filepath.Join(dir, "blocks", hash+".q4")
+					pLink := filepath.Join(dir, "blocks", "heights", strconv.FormatUint(height, 10)+".ods")
+					if !lexists(pODS) || !lexists(pLink) || lexists(pQ4) != sc.q4put {
+						t.Fatalf("store layout differs from what the harness assumes (ods %v link %v q4 %v)", lexists(pODS), lexists(pLink), lexists(pQ4))
+					}
+					rm := func(p string) {
+						if err := os.Remove(p); err != nil {
+							t.Fatal(err)
+						}
+					}
+					if sc.rmLink {
+						rm(pLink)
+					}
+					if sc.rmODS {
+						rm(pODS)
+					}
+					if sc.rmQ4 {
+						rm(pQ4)
+					}
+					var q4bytes []byte
+					if sc.faultQ4 {
+						if q4bytes, err = os.ReadFile(pQ4); err != nil {
+							t.Fatal(err)
+						}
+						rm(pQ4)
+						if err := os.Mkdir(pQ4, 0o755); err != nil {
+							t.Fatal(err)
+						}
+						if err := os.WriteFile(filepath.Join(pQ4, "busy"), []byte{1}, 0o600); err != nil {
+							t.Fatal(err)
+						}
+					}
+					if restart {
+						_ = st.Stop(ctx)
+						if st, err = store.NewStore(store.DefaultParameters(), dir); err != nil {
+							t.Fatal(err)
+						}
+					}
+					var fa *ShareAvailability
+					if archival {
+						fa = NewShareAvailability(st, nil, WithArchivalMode())
+					} else {
+						fa = NewShareAvailability(st, nil)
+					}
+					mode := "pruned"
+					if archival {
+						mode = "archival"
+					}
+					replay := map[string]any{"state": sc.name, "mode": mode, "restart": restart, "ods_size": size, "height": height, "seed": r.Seed}
+					r.Count("partial_state", sc.name+"/"+mode)
+					what := fmt.Sprintf("%s Prune of height %d in state %q (restart %v)", mode, height, sc.name, restart)
+					complete := !sc.rmLink && !sc.rmODS
+					left := func() string {
+						s := ""
+						if lexists(pLink) {
+							s += " heights/<h>.ods"
+						}
+						if lexists(pODS) {
+							s += " blocks/<hash>.ods"
+						}
+						if lexists(pQ4) {
+							s += " blocks/<hash>.q4"
+						}
+						return s
+					}
+					check := func(call string) {
+						if archival {
+							if lexists(pQ4) {
+								r.Violation("full-prune-leaves-files", fmt.Sprintf("%s (%s) returned nil but the parity quadrant file is still on disk:%s", what, call, left()), replay)
+							}
+							if complete {
+								if !lexists(pODS) || !lexists(pLink) {
+									r.Violation("archival-prune-removes-ods", fmt.Sprintf("%s (%s) removed the ODS of a complete block; left:%s", what, call, left()), replay)
+								} else if err := c14Servable(ctx, st, height, sq, roots); err != nil {
+									r.Violation("archival-prune-not-servable", fmt.Sprintf("after %s (%s) the block is not fully servable: %v", what, call, err), replay)
+								}
+							}
+							return
+						}
+						if l := left(); l != "" {
+							r.Violation("full-prune-leaves-files", fmt.Sprintf("%s (%s) returned nil but files of the block are still on disk:%s", what, call, l), replay)
+						}
+						hasH, _ := st.HasByHeight(ctx, height)
+						hasD, _ := st.HasByHash(ctx, roots.Hash())
+						hasQ, _ := st.HasQ4ByHash(ctx, roots.Hash())
+						if hasH || hasD || hasQ {
+							r.Violation("prune-leaves-data", fmt.Sprintf("after %s (%s) the block is still stored (by height %v, by hash %v, q4 %v)", what, call, hasH, hasD, hasQ), replay)
+						}
+					}
+					err = fa.Prune(ctx, eh)
+					if sc.faultQ4 {
+						if err == nil {
+							r.Violation("full-prune-hides-failure", fmt.Sprintf("%s returned nil although the parity quadrant could not be removed (the pruner forgets the height); left:%s", what, left()), replay)
+						}
+						// the fault heals; the pruner service retries the failed height
+						if err := os.RemoveAll(pQ4); err != nil {
+							t.Fatal(err)
+						}
+						if err := os.WriteFile(pQ4, q4bytes, 0o600); err != nil {
+							t.Fatal(err)
+						}
+						if err := fa.Prune(ctx, eh); err != nil {
+							r.Violation("full-prune-retry-error", fmt.Sprintf("retry of %s after the fault healed failed: %v", what, err), replay)
+						} else {
+							check("retry after the failed Q4 removal")
+						}
+					} else if err != nil {
+						r.Violation("full-prune-partial-error", fmt.Sprintf("%s failed without any fault: %v", what, err), replay)
+					} else {
+						check("first call")
+					}
+					if err := fa.Prune(ctx, eh); err != nil { // handed over once more (batch replayed): still nil, still clean
+						r.Violation("full-prune-partial-error", fmt.Sprintf("repeated %s failed: %v", what, err), replay)
+					} else {
+						check("repeated call")
+					}
+					_ = st.Stop(ctx)
+					n++
+				}
+			}
+		}
+	}
+	r.Set("store_partial_prune_scenarios", n)
 }
